@@ -18,7 +18,7 @@ import (
 // Op is one API call of a scenario.  Buffers are named by their index in
 // allocation order (B, 1-based), devices by driver device id.
 type Op struct {
-	A    string `json:"a"`              // Alloc AllocU Free Remap Dist Mig Probe
+	A    string `json:"a"`              // Alloc AllocU Free Remap Dist Mig Probe Launch CopyOut
 	Ctx  int    `json:"ctx,omitempty"`  // context index (0-based)
 	Dev  int    `json:"dev,omitempty"`  // target device
 	N    int    `json:"n,omitempty"`    // pages
@@ -77,6 +77,8 @@ type buf struct {
 	pages int
 	live  bool
 	bytes uint64
+
+	internal bool // allocated by the driver itself (kernel launch)
 }
 
 type stub struct {
@@ -109,6 +111,7 @@ type world struct {
 
 	mmuDone  bool
 	restarts int
+	written  []key // pages written to the page table during the current call
 }
 
 // hErr is a failure of the harness itself (never a verdict): it is not recovered.
@@ -121,6 +124,7 @@ func newWorld(rec *ab.Recorder, sc *Scenario, stats map[string]int) *world {
 	eng := ab.NewEngine()
 	w.pt = &recPT{PageTable: vm.NewPageTable(uint64(sc.PS)), keys: map[key]bool{}}
 	w.pt.onPage = func(p vm.Page) {
+		w.written = append(w.written, key{p.PID, p.VAddr})
 		// the first page written on behalf of a process reveals its (unexported) pid
 		if _, known := w.pidIdx[p.PID]; !known && w.curProc > 0 {
 			if _, has := w.realOf[w.curProc]; !has {
@@ -129,8 +133,9 @@ func newWorld(rec *ab.Recorder, sc *Scenario, stats map[string]int) *world {
 			}
 		}
 	}
+	// default memory-copy middleware (copies become messages to the GPUs, which the harness answers)
 	w.d = driver.MakeBuilder().WithEngine(eng).WithPageTable(w.pt).WithLog2PageSize(uint64(sc.PS)).
-		WithMagicMemoryCopyMiddleware().Build("Driver")
+		Build("Driver")
 	conn := ab.NewConn("Conn")
 	w.gpuPort = w.d.GetPortByName("GPU")
 	w.mmuPort = w.d.GetPortByName("MMU")
